@@ -16,7 +16,8 @@ def is_url(value: str) -> None:
 
 
 def is_int(value: int) -> None:
-    if not isinstance(value, int):
+    # bool is a subclass of int, but a JSON boolean is not an integer
+    if not isinstance(value, int) or isinstance(value, bool):
         raise ValueError("must be an int")
 
 
